@@ -242,6 +242,12 @@ class _Run:
             return env
         if isinstance(s, ast.Delete):
             return env
+        if isinstance(s, ast.Match):
+            self.ev(s.subject, env)
+            out = dict(env)
+            for c in s.cases:
+                out = self.join(out, self.block(c.body, dict(env)))
+            return out
         if isinstance(s, ast.Assert):
             self.ev(s.test, env)
             return env
